@@ -3,6 +3,7 @@ package main
 import (
 	"go/types"
 	"sort"
+	"strings"
 
 	"golang.org/x/tools/go/ssa"
 )
@@ -231,14 +232,43 @@ func (P *Program) shallowEffects(e *effectSet, sig *types.Signature) {
 	}
 }
 
-func (P *Program) contractEffects(e *effectSet, con *Contract, sig *types.Signature, recv types.Type) {
+// touchesEffects interprets a contract's "touches" clause: all | none |
+// cell:<type> | arr:<slice type> (types as written in contracts).
+func (P *Program) touchesEffects(e *effectSet, con *Contract) {
 	for _, t := range con.Touches {
-		if t == "all" {
+		switch {
+		case t == "all":
 			e.all = true
-		} else if t != "none" {
+		case t == "none":
+		case strings.HasPrefix(t, "cell:"), strings.HasPrefix(t, "arr:"):
+			kind, name, _ := strings.Cut(t, ":")
+			var T types.Type
+			func() {
+				defer func() { recover() }()
+				pkg := P.SPkgs[con.Pkg]
+				if pkg == nil {
+					pkg = P.SPkgs["biscuit"]
+				}
+				env := &specEnv{vc: &VC{P: P}, pkg: pkg.Pkg}
+				T = env.resolveType(name)
+			}()
+			if T == nil {
+				e.all = true // unknown type: be conservative
+				continue
+			}
+			if kind == "cell" {
+				e.addCell(T)
+			} else {
+				e.addArr(T)
+			}
+		default:
 			e.comps[t] = true
 		}
 	}
+}
+
+func (P *Program) contractEffects(e *effectSet, con *Contract, sig *types.Signature, recv types.Type) {
+	P.touchesEffects(e, con)
 	if !con.ModNothing && !con.Pure {
 		P.shallowEffects(e, sig)
 	}
